@@ -19,6 +19,9 @@ def step (s : State) (toks : List String) : State × String :=
   | "rt" :: _ => (s, (MsgEmit.handle toks).getD "bad-op")
   | "tsnew" :: _ => (s, (MsgEmit.handle toks).getD "bad-op")
   | "undec" :: _ => (s, (MsgEmit.handle toks).getD "bad-op")
+  | "rtok" :: _ => (s, (MsgEmit.handle toks).getD "bad-op")
+  | "svcbenc" :: _ => (s, (MsgEmit.handle toks).getD "bad-op")
+  | "ednsrc" :: _ => (s, (MsgEmit.handle toks).getD "bad-op")
   | "asm" :: _ => (s, "~")
   | _ => (s, "bad-op")
 
